@@ -4,6 +4,7 @@ import Abyss.Props.C05
 #print axioms Abyss.C05_reader
 #print axioms Abyss.C05_checkInv_sound
 #print axioms Abyss.parse_render
+#print axioms Abyss.C02_reopen
 #print axioms Abyss.Store.put_spec
 #print axioms Abyss.Store.del_spec
 #print axioms Abyss.Store.get_spec
